@@ -100,6 +100,12 @@ CHECKS = {
         ref="DESIGN.md section 6 C14",
         note="Expiry is straddled with real millisecond TTLs and sleeps; concurrent histories compare responses only; subscriptions interleaved with queries are exercised by the subscription drivers on a caching gateway.",
         technique="TLA+ model of the cache protocol (TLC) whose histories are replayed differentially on caching vs plain real gateways + TLC trace validation"),
+    "C19": dict(
+        category="model_checking",
+        text="Upload.tla: the layouts of a GraphQL multipart request (which upload mutations of two services are selected; which client file - A, B or none - the map attaches to each of four variable paths: top level, inside an input object, two list positions, one file at several paths; single or batched) and the contract SvcReqOK (a service request that uses variable v carries exactly the client's files under v at the same paths with the same name and bytes, and is multipart iff it carries one; the operation succeeds). TLC enumerates all 5,472 layouts and, at design level, shows that leaf-by-leaf extraction that nulls shared containers in place loses files for the second reader under every interleaving that lets it come second. Every layout is sent as a real multipart/form-data request through the real gateway; the fake services re-parse the multipart they receive; TLC validates what they got (UploadTrace).",
+        ref="DESIGN.md section 6 C19",
+        note="Two files (text and binary with CRLF / boundary-like bytes), trees of depth <= 2; the interleaving of the two concurrent service requests is not forced.",
+        technique="TLA+ layout grammar + contract, TLC enumeration replayed as real multipart requests, TLC trace validation of what the services received"),
 }
 
 PENDING = "not claimed yet: specification and binding for this property are still being built (DESIGN.md section 10 build order)"
